@@ -1460,7 +1460,12 @@ class Normalizer:
                     if wanted(v):
                         holder = (value.values, i)
                         break
-                    if not _is_path_expr(v):
+                    # (a space declaration built from plain values - `gym.spaces.MultiBinary(n)` - reads nothing
+                    # the helper could change and changes nothing the helper reads)
+                    if not _is_path_expr(v) and not (
+                        isinstance(v, ast.Call) and ".spaces." in "." + (ast.unparse(v.func) if isinstance(v.func, (ast.Attribute, ast.Name)) else "") + "."
+                        and all(_is_path_expr(a_) for a_ in v.args) and all(kw_.arg and _is_path_expr(kw_.value) for kw_ in v.keywords)
+                    ):
                         break
         if holder is None:
             return None
